@@ -1,4 +1,137 @@
 import TLVerif.Syntaxtl2.Parser
 import TLVerif.Syntaxtl2.Format
+import TLVerif.Syntaxtl2.FormatLemmas
+/-! # C22 — TL2 formatter round-trips and is idempotent
+
+Statement (fixed): formatting any parsed TL2 file (with the default and the canonical options) yields text that parses
+to the same declarations, and formatting that text again yields the same text.
+
+`RoundTrip o f` / `Idempotent o f` below are the two halves for one options value; `Statement` is the property at
+full strength over the model (`parseTL2File`, `printFile`). It is FALSE for the unchanged code: two counter-examples
+are proved (`statement_fails`, known_findings.d/C22.json). What is proved for ALL files: idempotence follows from the
+round trip (canonical options: from the declarations alone; default options: from everything the formatter can
+print), i.e. the formatter reads nothing else. The round trip itself, outside the two guards, is NOT a theorem here:
+it is explored by checks/C22.py through the tie (see manifest.d/C22.json). -/
 namespace TLVerif.Props.C22
+open TLVerif.Syntaxtl2
+
+/-- `f` is in the image of the parser. -/
+def Parsed (f : File) : Prop := ∃ tx, parseTL2File tx = .ok (.ok f)
+
+/-- the formatted text parses, to the same declarations (comments and positions are not declarations). -/
+def RoundTrip (o : FormatOptions) (f : File) : Prop :=
+  ∃ f', parseTL2File (printFile o f) = .ok (.ok f') ∧ File.core f' = File.core f
+
+/-- formatting the formatted text again yields the same text. -/
+def Idempotent (o : FormatOptions) (f : File) : Prop :=
+  ∀ f', parseTL2File (printFile o f) = .ok (.ok f') → printFile o f' = printFile o f
+
+/-- The property at full strength. -/
+def Statement : Prop :=
+  ∀ o, (o = defaultOptions ∨ o = canonicalOptions) → ∀ f, Parsed f → RoundTrip o f ∧ Idempotent o f
+
+/-- The decidable guard outside of which the unchanged code is known to violate the statement. -/
+def Guard (f : File) : Bool := !(f.any Comb.hasDep) && !(f.any Comb.hasSingletonUnion)
+
+/-- The statement restricted to the guard: what checks/C22.py evaluates on every explored input
+(not proved; see the module comment). -/
+def StatementUnderGuard : Prop :=
+  ∀ o, (o = defaultOptions ∨ o = canonicalOptions) → ∀ f, Parsed f → Guard f = true → RoundTrip o f ∧ Idempotent o f
+
+/-! ### What the formatter reads -/
+
+/-- With the canonical options the text is a function of the declarations alone. -/
+theorem canonical_print_core_only (f g : File) (h : File.core f = File.core g) :
+    printFile canonicalOptions f = printFile canonicalOptions g := by
+  rw [← printFile_core canonicalOptions rfl f, ← printFile_core canonicalOptions rfl g, h]
+
+/-- With any options the text does not depend on right-hand comments nor on comments of function arguments. -/
+theorem print_visible_only (o : FormatOptions) (f g : File) (h : File.vis f = File.vis g) :
+    printFile o f = printFile o g := by
+  rw [← printFile_vis o f, ← printFile_vis o g, h]
+
+/-- **Idempotence follows from the round trip** (canonical options), for every file. -/
+theorem canonical_idempotent_of_roundtrip (f : File) (h : RoundTrip canonicalOptions f) :
+    Idempotent canonicalOptions f := by
+  obtain ⟨f', h1, h2⟩ := h
+  intro f'' h3
+  rw [h1] at h3
+  injection h3 with h3
+  injection h3 with h3
+  subst h3
+  exact canonical_print_core_only _ _ h2
+
+/-- Default options: idempotence follows when the reparsed file agrees on everything the formatter can print. -/
+theorem default_idempotent_of_visible_roundtrip (f f' : File)
+    (h1 : parseTL2File (printFile defaultOptions f) = .ok (.ok f')) (h2 : File.vis f' = File.vis f) :
+    Idempotent defaultOptions f := by
+  intro f'' h3
+  rw [h1] at h3
+  injection h3 with h3
+  injection h3 with h3
+  subst h3
+  exact print_visible_only _ _ _ h2
+
+/-! ### Counter-examples on the unchanged code (both are in the image of the parser) -/
+
+def isFile (r : Res (Except PErr File)) : Bool := match r with | .ok (.ok _) => true | _ => false
+def isError (r : Res (Except PErr File)) : Bool := match r with | .ok (.error _) => true | _ => false
+def getFile (r : Res (Except PErr File)) : File := match r with | .ok (.ok f) => f | _ => []
+
+theorem eq_of_isFile {r : Res (Except PErr File)} (h : isFile r = true) : r = .ok (.ok (getFile r)) := by
+  cases r with
+  | ok x => cases x with
+    | ok f => rfl
+    | error e => cases h
+  | panic => cases h
+  | nofuel => cases h
+
+/-- `a = | B;` : a union with one variant. -/
+def wOne : File := getFile (parseTL2File (bs "a = | B;\n"))
+/-- `a = _x:int;` : a field with a deprecated name. -/
+def wDep : File := getFile (parseTL2File (bs "a = _x:int;\n"))
+
+theorem wOne_parsed : Parsed wOne := ⟨bs "a = | B;\n", eq_of_isFile (by decide +kernel)⟩
+theorem wDep_parsed : Parsed wDep := ⟨bs "a = _x:int;\n", eq_of_isFile (by decide +kernel)⟩
+
+/-- the formatted one-variant union (`a = B;`) is rejected by the parser. -/
+theorem roundtrip_fails_at_one_variant_union : ¬ RoundTrip canonicalOptions wOne := by
+  intro ⟨f', h, _⟩
+  have : isError (parseTL2File (printFile canonicalOptions wOne)) = true := by decide +kernel
+  rw [h] at this
+  cases this
+
+/-- the formatted deprecated-name field (`a = _:int;`) parses back to a different declaration. -/
+theorem roundtrip_fails_at_dep_name : ¬ RoundTrip canonicalOptions wDep := by
+  intro ⟨f', h, hc⟩
+  have h3 : (File.core (getFile (parseTL2File (printFile canonicalOptions wDep)))).any Comb.hasDep = false := by
+    decide +kernel
+  have h4 : (File.core wDep).any Comb.hasDep = true := by decide +kernel
+  rw [h] at h3
+  simp only [getFile] at h3
+  rw [hc, h4] at h3
+  cases h3
+
+theorem statement_fails : ¬ Statement := by
+  intro h
+  exact roundtrip_fails_at_one_variant_union (h canonicalOptions (Or.inr rfl) wOne wOne_parsed).1
+
+/-- both witnesses are outside the guard, each for its own reason -/
+theorem witnesses_outside_guard : Guard wOne = false ∧ Guard wDep = false ∧
+    wOne.any Comb.hasDep = false ∧ wDep.any Comb.hasSingletonUnion = false := by decide +kernel
+
+/-! ### The guard is satisfiable by non-trivial files, and the property holds there (instances) -/
+
+def sample : Bytes :=
+  bs "// c\n@x p.q#0000000a<t:Type,n:#> = | A // r\n | b [n]t | C x?:[]m<t,3> _:int;\nf#00000001 a:int => <=> [string]p.q<int,4>;\n"
+
+def roundTripB (o : FormatOptions) (f : File) : Bool :=
+  match parseTL2File (printFile o f) with
+  | .ok (.ok f') => (File.core f').length == (File.core f).length && printFile o f' == printFile o f
+  | _ => false
+
+example : isFile (parseTL2File sample) = true ∧ Guard (getFile (parseTL2File sample)) = true ∧
+    roundTripB canonicalOptions (getFile (parseTL2File sample)) = true ∧
+    roundTripB defaultOptions (getFile (parseTL2File sample)) = true := by decide +kernel
+
 end TLVerif.Props.C22
